@@ -24,12 +24,18 @@ pub fn resolve(
 	builtin: Builtin,
 	location: &Location,
 	arguments: Vec<Expression>,
-	_return_type: ValueType,
+	return_type: ValueType,
 ) -> Expression
 {
+	// Where a value is expected, `abort!()` and `panic!()` stand for one.
+	let abort = match return_type
+	{
+		ValueType::Void => GeneratorBuiltin::Abort,
+		value_type => GeneratorBuiltin::AbortAs { value_type },
+	};
 	match builtin
 	{
-		Builtin::Abort => Expression::Builtin(GeneratorBuiltin::Abort),
+		Builtin::Abort => Expression::Builtin(abort),
 		Builtin::Format =>
 		{
 			Expression::Builtin(GeneratorBuiltin::Format { arguments })
@@ -85,7 +91,7 @@ pub fn resolve(
 			let eprint = write(Fd::Stderr, arguments);
 			let statements =
 				vec![Statement::EvaluateAndDiscard { value: eprint }];
-			let value = Box::new(Expression::Builtin(GeneratorBuiltin::Abort));
+			let value = Box::new(Expression::Builtin(abort));
 			Expression::InlineBlock { statements, value }
 		}
 		Builtin::IncludeBytes => unreachable!(),
